@@ -66,12 +66,100 @@ def job(max_iter, strat, tier):
             name = "%s/cost%d<=cost%d" % (pk, k + 1, k)
             if okm:
                 res.add_raw(name, "holds", "z3 over uninterpreted residual symbols: path condition entails |f(x_%d)|^2 <= |f(x_%d)|^2" % (k + 1, k))
+                continue
+            # candidate: realise the solver's model of the uninterpreted residual by a concrete function and replay it on the real minimize
+            w = None
+            rs, model = solver.counterexample(p.pc, Cond("cmp", c1, c0, "ole"), True, timeout_ms=8000)
+            if rs == "sat":
+                w = replay_model(hn, model, o, k, max_iter, strat)
+            if w is None:
+                w = replay_battery(hn, max_iter, strat)
+            if w is not None:
+                res.add_raw(name, "violated", "z3 model of the residual realised by a quadratic and replayed natively: cost increases")
+                vkey = key + "/monotone-cost"
+                if not any(x["key"] == vkey for x in res.violations):
+                    res.violations.append({"key": vkey, "what": "%s: the cost handed to the callback increases from %.6g to %.6g (residual %s, x0=%.6g)" % (key, w["c0"], w["c1"], w["residual"], w["inputs"][0]),
+                                           "replay": dict(w, property=PID, key=vkey, tu_name=hn.name, tu_text=hn.text, extra=list(hn.extra), fn="opt_minimize0p", nout=16, tol=0.0,
+                                                          obligation="cost_k+1 <= cost_k", lhs=str(w["c1"]), rhs=str(w["c0"]), err=w["c1"] - w["c0"])})
             else:
-                res.add_raw(name, "undecided", "z3 could not prove monotonicity on path [%s]" % p.pc_str()[:150])
+                res.add_raw(name, "undecided", "z3 %s for monotonicity on path [%s]; model/battery not reproduced natively" % (rs, p.pc_str()[:150]))
     if not nok:
         res.errors.append(key + ": vacuous")
     res.stubs.add("UF_F0, UF_J0: uninterpreted residual and Jacobian (congruence axioms); std::chrono::now returns 0")
     return res
+
+
+def run_poly(hn, x0, max_iter, strat, P, label):
+    inp = [float(x0), float(max_iter), float(strat), 1e-6, 1e-6] + [float(v) for v in P]
+    if any(v != v or abs(v) > 1e150 for v in inp):
+        return None
+    try:
+        out = hn.native("opt_minimize0p", inp, 16)
+    except Exception:
+        return None
+    ncb = int(out[3])
+    for k in range(min(ncb, 6) - 1):
+        a, b = out[5 + 2 * k], out[5 + 2 * (k + 1)]
+        if a == a and b == b and b > a * (1 + 1e-9) + 1e-300:
+            return {"inputs": inp, "native": out, "c0": a, "c1": b, "residual": label}
+    return None
+
+
+def replay_model(hn, model, o, k, max_iter, strat):
+    """quadratic residual through (x_k, f_k, J_k) and (x_{k+1}, f_{k+1}) taken from the solver's model"""
+    env = {}
+    atoms = []
+    for i, v in model.items():
+        info = T.ATOM_LIST[i]
+        if info[0] == "sym":
+            env[info[1]] = v
+        elif info[0] == "fn" and info[1].startswith("uf:"):
+            atoms.append((info[1], info[2][0], v))
+    table = {}
+
+    def lookup(name):
+        def f(a):
+            best = min(table.get(name, []), key=lambda e: abs(e[0] - a), default=None)
+            if best is None or abs(best[0] - a) > 1e-9 * max(1.0, abs(a)):
+                raise KeyError(name)
+            return best[1]
+        return f
+    env["uf:UF_F0"], env["uf:UF_J0"] = lookup("uf:UF_F0"), lookup("uf:UF_J0")
+    pending = list(atoms)
+    for _ in range(len(atoms) + 1):          # arguments may contain other UF atoms: resolve in dependency order
+        rest = []
+        for name, arg, v in pending:
+            try:
+                table.setdefault(name, []).append((T.evaluate(arg, env), v))
+            except Exception:
+                rest.append((name, arg, v))
+        pending = rest
+        if not pending:
+            break
+    try:
+        x0 = env["x0"]
+        xa = T.evaluate(o[4 + 2 * k], env)
+        xb = T.evaluate(o[4 + 2 * (k + 1)], env)
+        fa, ja, fb = env["uf:UF_F0"](xa), env["uf:UF_J0"](xa), env["uf:UF_F0"](xb)
+    except Exception:
+        return None
+    if k != 0 or xb == xa:
+        return None   # only the first step is realised exactly (later iterates depend on values the quadratic does not pin)
+    c = (fb - fa - ja * (xb - xa)) / (xb - xa) ** 2
+    P = [fa - ja * xa + c * xa * xa, ja - 2 * c * xa, c, 0.0, 0.0]
+    return run_poly(hn, x0, max_iter, strat, P, "quadratic interpolating the solver model: f(%.6g)=%.6g, f'=%.6g, f(%.6g)=%.6g" % (xa, fa, ja, xb, fb))
+
+
+BATTERY = [("atan(x)", 2.0, [0, 0, 0, 0, 1]), ("x^3-2x+2", 0.0, [2, -2, 0, 1, 0]), ("atan(x)", -3.0, [0, 0, 0, 0, 1]), ("x^3-2x+2", 1.0, [2, -2, 0, 1, 0])]
+
+
+def replay_battery(hn, max_iter, strat):
+    """residuals with overshooting Gauss-Newton steps (the trial step has negative actual reduction)"""
+    for label, x0, P in BATTERY:
+        w = run_poly(hn, x0, max(max_iter, 1), strat, P, label)
+        if w is not None:
+            return w
+    return None
 
 
 def main(tier):
